@@ -332,6 +332,8 @@ class Interp(object):
                 ops.append("D")
             if self.shard.get("reenter") and depth >= 1 and depth < self.max_depth:
                 ops.append("E")
+            if self.shard.get("unentered"):
+                ops.append("U")
             if self.allow_raise:
                 for j in range(1, depth + 1):
                     ops.append(("R", j))
@@ -350,6 +352,8 @@ class Interp(object):
                 self.do_deferred_handoff()
             elif op == "E":
                 self.do_reenter(depth)  # no new action level: raise(j) still counts enclosing actions
+            elif op == "U":
+                self.do_unentered()
             else:
                 self.n += 1
                 e = _mk_exc(self.style("exc", N_EXC), self.n)
@@ -373,9 +377,17 @@ class Interp(object):
         self.ops.append("M%d" % st)
         self.n_msgs += 1
         if st == 0:
-            ref = RefMessage("t:msg", {"x": v})
-            self._attach(ref)
-            log_message("t:msg", x=v)
+            if self.shard.get("names"):
+                # field names that are legal JSON keys but unusual Python-side, and names that
+                # coincide with fields eliot itself uses on *other* kinds of messages
+                extra = {"ключ é": 1, "reason": "user text", "exception": "user.Value", "result": [v], "with space": None}
+                ref = RefMessage("t:msg", dict(extra, x=v))
+                self._attach(ref)
+                log_message("t:msg", x=v, **extra)
+            else:
+                ref = RefMessage("t:msg", {"x": v})
+                self._attach(ref)
+                log_message("t:msg", x=v)
         elif st == 1:
             ref = RefMessage("t:alog", {"x": v})
             self._attach(ref)
@@ -511,7 +523,11 @@ class Interp(object):
         holder = []
         try:
             if st in (0, 4, 5):
-                if st == 0:
+                if st == 0 and self.shard.get("explicit_logger"):
+                    from eliot import Logger as _Logger
+
+                    action = start_action(_Logger(), ref.type, x=v)  # positional logger / action_type
+                elif st == 0:
                     action = start_action(action_type=ref.type, x=v)
                 elif st == 4:
                     action = TYPED_ACTION(x=v)
@@ -660,7 +676,10 @@ class Interp(object):
             if not inline:
                 self.stack, self.astack = [], []
             self._expect_current("on the remote side before continue_task")
-            with Action.continue_task(task_id=task_id, x=v) as action:
+            kw = {"action_type": "custom:remote"} if self.shard.get("remote_type") else {}
+            if kw:
+                ref.type = "custom:remote"
+            with Action.continue_task(task_id=task_id, x=v, **kw) as action:
                 self.on_logged(ref)
                 self._body(ref, action, depth)
                 self._close_ok(ref, action, {})
@@ -683,6 +702,41 @@ class Interp(object):
                 raise
         if self.check_context:
             ctx.check(current_action() is before, "hand-off changed the originating side's current action")
+
+    def do_unentered(self):
+        """An action that is started, used through its own methods and finished explicitly,
+        without ever becoming the current action."""
+        v = self.value()
+        how = self.ctx.choose(3, "how the unentered action ends")
+        ref = RefAction("t:unentered", {"x": v}, 8)
+        self._attach(ref)
+        self.n_actions += 1
+        self.ops.append("U%d" % how)
+        before = current_action()
+        a = start_action(action_type="t:unentered", x=v)
+        a.log("t:own", x=v)
+        ref.children.append(RefMessage("t:own", {"x": v}))
+        if how == 0:
+            a.add_success_fields(r=v)
+            a.finish()
+            ref.status, ref.end_fields = "succeeded", {"r": v}
+        elif how == 1:
+            e = _mk_exc(self.style("exc", N_EXC), self.n)
+            a.finish(e)
+            f, boom = self.exc_extra(e)
+            f = dict(f)
+            f.update(exception=exc_name(e), reason=exc_reason(e))
+            ref.status, ref.end_fields, ref.exc = "failed", f, e
+            self.n_failed += 1
+            if boom:
+                self._attach(self._extractor_traceback_ref())
+        else:
+            a.finish()
+            a.finish(ValueError("again"))
+            a.add_success_fields(late=1)
+            ref.status, ref.end_fields = "succeeded", {}
+        if self.check_context:
+            self.ctx.check(current_action() is before, "an action that was never entered changed current_action()")
 
     def do_reenter(self, depth):
         """Re-enter the current action's context()/run() and run a nested block: no new
